@@ -1,7 +1,8 @@
 PROP = dict(
     module="M3d.Props.C05",
     corr=dict(quick=150, thorough=1000),
-    gen=[],
+    gen=["Kernels"],
+    tie_modules=["M3d.Lemmas.KernelsTieTransform"],
     corr_theorems=(
         "faithful kinds (apply bounds invdesc appdist solidr inner outer nilcb sphin cbounds vmball mat* 'pinch apply/invdesc') compare the "
         "model of each Go method with the method; property kinds print the right-hand sides of M3d.C05.inverse_apply/apply_inverse "
@@ -22,6 +23,11 @@ PROP = dict(
         "lengths, hit counts per collider kind"
     ),
     trusted=[
+        "regenerated, not hand-written: lean/M3d/Gen/Kernels.lean (Go->Lean translator harness/hlib/go2lean, run on the current "
+        "source on every check); M3d.KernelsTie.Transform.* re-prove against it that Apply/ApplyBounds/ApplyDistance of Translate, "
+        "Scale, VecScale, Matrix3Transform and the ortho wrapper and the Matrix3/Matrix2 algebra (Det, Inverse, MulColumn, "
+        "MulColumnInv, Mul, Transpose) are the clauses of Xf.apply/applyBounds/applyDistance and M3/M2 that the C05 theorems are "
+        "about; the translator is validated by execution against the real functions (C06 kind gk)",
         "modelled, not verified: float64 arithmetic as exact field arithmetic (the theorems are exact identities; rounding error of Apply∘Inverse is not bounded)",
         "math.Sqrt is a parameter sqrtF of the model (hypothesis: sqrtF(x)^2 = x for x > 0; Float.sqrt in bits mode); math.Pow in AxisPinch is a parameter powF (hypotheses: monotone, pow 0 = 0, pow 1 = 1, pow(pow(x,p),1/p) = x), tied exactly for Power in {2, 1/2, 1} and bit-for-bit with Go's pow values for a sweep of powers",
         "wrapped Solid/SDF/Collider/Metaball are arbitrary functions (parameters of the model); their own correctness is C03/C06/C07",
